@@ -275,6 +275,10 @@ write_type_info (const gchar *namespace,
 
       if (g_type_info_is_zero_terminated (info))
 	xml_printf (file, " zero-terminated=\"1\"");
+      else if (length < 0 && size < 0 && name == NULL)
+	/* a C array with neither length nor fixed size reads back as
+	 * zero-terminated unless told otherwise */
+	xml_printf (file, " zero-terminated=\"0\"");
 
       write_type_info (namespace, type, file);
 
